@@ -14,7 +14,7 @@ func init() {
 	Register(&Prop{
 		ID:    "C03",
 		Title: "Reward blocks pay each proven prover its proportional share exactly once",
-		Cases: func(t string) int { return tierN(t, 160, 3000) },
+		Cases: func(t string) int { return tierN(t, 160, 24000) },
 		Run:   runC03,
 		Rule: "case = one generated history: 1-3 files (sizes 1..1e9 bytes, replication 1-5), 2-5 provers joining in PRNG order, each (prover,file) stops proving at a PRNG-chosen window (or never), proof window 2-6, reward interval 2-6, live gauges; " +
 			"every reward BeginBlock is one oracle evaluation (hooked sizeTracker == bytes of obligation-met listings; prover lists / proof records / burn counters after == predicted; payouts from the transfer event log within one unit of the size-weighted share, only to counted provers, sum <= released); " +
